@@ -199,7 +199,7 @@ def TA.replicasFor (t : TA) (ks tok : Nat) : Replicas :=
 inductive PickResult
   | seq (l : List Host)
   | crash
-deriving Repr
+deriving Repr, DecidableEq
 
 /-- `Pick(qry)` followed by `limit` calls of the returned iterator (or fewer if it returns nil):
 `rk = none` is a query without routing key; `σ` is the shuffle. Returns the new state and the hosts offered.
@@ -226,5 +226,16 @@ def TA.pick (t : TA) (up : Nat → Bool) (σ : List Host → List Host) (rk : Op
       else
         ({ t with pol := (t.pol.pick up).1 },
          .seq ((taSeq t.pol.tier t.pol.maxTier up t.nonlocal reps (t.pol.pick up).2).take limit))
+
+/-- the full sequence the iterator returned by `Pick` offers when drained -/
+def TA.pickSeq (t : TA) (up : Nat → Bool) (σ : List Host → List Host) (rk : Option (Nat × Nat)) : PickResult :=
+  match rk with
+  | none => .seq (t.pol.pickSeq up)
+  | some (ks, tok) =>
+    match t.replicasFor ks tok with
+    | .noRing => .seq (t.pol.pickSeq up)
+    | .nilHost => if t.pol.kind == .rr then .seq (t.pol.pickSeq up) else .crash
+    | .hosts l fromTable =>
+      .seq (taSeq t.pol.tier t.pol.maxTier up t.nonlocal (if fromTable && t.shuffle then σ l else l) (t.pol.pickSeq up))
 
 end Policies
